@@ -27,6 +27,63 @@ type Job struct {
 	MinimiseS  int64  `json:"minimise_s"`
 	MaxViol    int    `json:"max_violations"`
 	Index      int    `json:"index"`
+	KnownPath  string `json:"known_path"`
+}
+
+type knownFinding struct {
+	ID       string         `json:"id"`
+	Property string         `json:"property"`
+	Class    string         `json:"class"`
+	Classes  []string       `json:"classes"`
+	Match    map[string]any `json:"match"`
+}
+
+func loadKnown(path string) []knownFinding {
+	var k struct {
+		Findings []knownFinding `json:"findings"`
+	}
+	b, err := os.ReadFile(path)
+	if err != nil {
+		return nil
+	}
+	_ = json.Unmarshal(b, &k)
+	return k.Findings
+}
+
+func matchKnown(ks []knownFinding, v *Violation) string {
+	vb, _ := json.Marshal(v.Facts)
+	var facts map[string]any
+	_ = json.Unmarshal(vb, &facts)
+	for _, k := range ks {
+		if k.Property != v.Property {
+			continue
+		}
+		if k.Class != "" && k.Class != v.Class {
+			continue
+		}
+		if len(k.Classes) > 0 {
+			ok := false
+			for _, c := range k.Classes {
+				if c == v.Class {
+					ok = true
+				}
+			}
+			if !ok {
+				continue
+			}
+		}
+		ok := true
+		for key, want := range k.Match {
+			if fmt.Sprint(facts[key]) != fmt.Sprint(want) {
+				ok = false
+				break
+			}
+		}
+		if ok {
+			return k.ID
+		}
+	}
+	return ""
 }
 
 type outLine struct {
@@ -79,6 +136,7 @@ func workerRun(t *testing.T, prop *Prop, job *Job) {
 	defer w.Flush()
 	enc := json.NewEncoder(w)
 	start := time.Now()
+	known := loadKnown(job.KnownPath)
 	nviol := 0
 	if job.MaxViol == 0 {
 		job.MaxViol = 2
@@ -101,7 +159,6 @@ func workerRun(t *testing.T, prop *Prop, job *Job) {
 			line.Program = p
 		}
 		if res.Violation != nil {
-			nviol++
 			os.MkdirAll(job.ReplayDir, 0o755)
 			path := filepath.Join(job.ReplayDir, fmt.Sprintf("%s-%d.json", res.Violation.Class, seed))
 			rf := &ReplayFile{Property: prop.ID, Class: res.Violation.Class, Msg: res.Violation.Msg, Seed: seed, Program: p, Events: res.Events, Violation: res.Violation}
@@ -119,6 +176,9 @@ func workerRun(t *testing.T, prop *Prop, job *Job) {
 					Program: mp, Original: p, Events: mres.Events, Violation: mres.Violation}
 				WriteJSON(path, rf)
 				res.Violation = mres.Violation
+			}
+			if matchKnown(known, res.Violation) == "" {
+				nviol++
 			}
 		}
 		if !job.KeepEvents && res.Violation == nil && res.Trouble == "" {
